@@ -387,7 +387,7 @@ def run(ctx):
     L = 2 if quick else 3
     beh_tb = gen(ctx, "Gen_Pacer.cfg", {"L": L})
     beh_gcc = gen(ctx, "Gen_Pacer_gcc.cfg", {"L": L})
-    n_tb, n_gcc, n_over = (1200, 500, 4) if quick else (10 ** 6, 10 ** 6, 400)
+    n_tb, n_gcc, n_over = (10 ** 6, 10 ** 6, 6) if quick else (10 ** 6, 10 ** 6, 400)
     tb = [script_from_behaviour("pacing", b) for b in beh_tb]
     tb, over = cap_oversize(rng, tb, n_over)
     if len(tb) > n_tb:
